@@ -114,6 +114,14 @@ def run(ctx: C.Ctx):
             continue
         ctx.count("integer_training_data")
         check_model(ctx, fm, 10 ** 6 + idx)
+    # localised modes + a model constructed with fewer sensors than modes (the count is raised by the setters afterwards): the
+    # leading n_basis_modes entries of the ranking must still be the optimizer's
+    for idx in range(ctx.scale(40, 400)):
+        fm = recon.gen_model(ctx, rng, bases=["identity", "identity", "svd"], opts=["qr"], want_tall=True, force_localized=True)
+        if fm is None:
+            continue
+        ctx.count("localised_modes_small_ctor_count")
+        check_model(ctx, fm, 2 * 10 ** 6 + idx)
     ctx.extra["worst_normalised_error"] = float(ctx.extra.get("worst_normalised_error", 0.0))
 
 
